@@ -88,6 +88,11 @@ chk('C04', 'exploration',
     '22 program situations x .falco.yml rule overrides (none; every fired rule x every level in both letter cases; all level pairs for two fired rules; an unrelated rule) - 500 cells - are each run through the real `falco lint` binary built from the current tree under all 6 combinations {plain, -json} x {default, -v, -vv} (3000 process runs). Oracles: exit status and error/warning/info counts equal the verdict computed through the library (parse main and includes, lint, apply overrides and ignore filtering); they are identical across the 6 combinations; the -json document agrees with the summary line.',
     'Trusts: the library-level reference (parser + linter through lintx) and the regular expression that reads the summary line.')
 
+chk('C16', 'fault_enumeration',
+    'exhaustive fault and crash-point enumeration of the recorded syscall history of the real binary (strace inject / SIGKILL / RLIMIT_FSIZE)',
+    'For 8 file contents the syscall history of the real `falco fmt -w FILE` is recorded under strace; every invocation of every file-related syscall of that history is re-run once per errno of its menu (fault) and once with SIGKILL on entry (every crash prefix), plus every RLIMIT_FSIZE from 0 to output size + 8, an unopenable target and a directory in which nothing can be created - about 2600 process runs in the quick tier. After each run the file must hold its original bytes or exactly what `falco fmt FILE` prints; a non-zero exit implies the original bytes, a zero exit the formatted text.',
+    'Trusts: strace fault injection (the run\'s own trace is inspected for the (INJECTED) marker), prlimit, kernel file semantics. Crash model: process death between two syscalls; power-loss reordering of unsynced blocks is out of scope.', '§4 C16')
+
 NOT_YET = {i: 'check not built yet in this session (design in DESIGN.md §4); will be claimed once its command exists' for i in ids if i not in CHECKS}
 
 m = {
@@ -102,6 +107,7 @@ m = {
  },
  'engines': [
    {'name': 'tlc+conformance', 'path': 'tla', 'serves_properties': ['C06'], 'kind_free_text': 'TLA+ model checked by TLC; dumped state graph replayed against the implementation by mc/checks/c06'},
+   {'name': 'faultfs', 'path': 'mc/checks/c16', 'serves_properties': ['C16'], 'kind_free_text': 'syscall-level fault / crash-point enumeration on the real binary under strace and prlimit'},
    {'name': 'choice+shard', 'path': 'mc/engine', 'serves_properties': list(CHECKS.keys()),
     'kind_free_text': 'stateless deviation-bounded explorer + sharded exhaustive case runner with crash attribution, class keys, known-finding classification, replay files'},
  ],
